@@ -371,6 +371,18 @@ def _replay_and_record(res, body, spec, complex_, c, S, kind, name, detail, valu
             m = _bounded_model(c.solver, z3.BoolVal(True), names) or c.solver.model()
             values = _model_values(m, names)
     failed, structural, err, Sn = replay_numeric(body, spec, complex_, values)
+    if kind == "raised" and "cast trap" in str(detail) and not (failed or structural or err is not None):
+        # a symbolic entry was written into a machine-typed array (e.g. zeros created without the data's dtype).
+        # With float64 data numpy does this silently and correctly; with complex data the imaginary part is lost:
+        # replay with complex blocks decides whether it is observable.
+        failed, structural, err, Sn = replay_numeric(body, spec, True, {})
+        if failed or structural or err is not None:
+            complex_ = True
+            values = dict(Sn.values)
+            name = name + ":complex-replay"
+        else:
+            res.notes["cast-trap-not-observable-in-replay"] = res.notes.get("cast-trap-not-observable-in-replay", 0) + 1
+            return
     reproduced = False
     if kind == "value":
         reproduced = bool(failed) or bool(structural) or err is not None
